@@ -49,12 +49,23 @@ func (b *BFT) AddProposal(m *Message) lib.ErrorI {
 			roundProposal[phaseToString(phase)] = append(phaseProposal, m)
 		}
 	} else {
+		// a stored message that was sent by the Validator its own certificate names as proposer (the certificate's signers signed
+		// that key) is never replaced by another Validator's copy of it: the copy would make every Replica give the round up
+		// on 'wrong proposer' when it comes to vote
+		if len(phaseProposal) == 1 && sentByNamedProposer(phaseProposal[0]) && !sentByNamedProposer(m) {
+			return nil
+		}
 		// overwrite the proposal
 		roundProposal[phaseToString(phase)] = []*Message{m}
 	}
 	// add to the global list
 	b.Proposals[m.Header.Round] = roundProposal
 	return nil
+}
+
+// sentByNamedProposer() returns true if the message was signed by the proposer key in its justifying certificate
+func sentByNamedProposer(m *Message) bool {
+	return m != nil && m.Qc != nil && m.Signature != nil && len(m.Qc.ProposerKey) != 0 && bytes.Equal(m.Qc.ProposerKey, m.Signature.PublicKey)
 }
 
 // ProposalsResetForNewCommittee resets proposals when the root chain sends a 'NewCommittee' reset command
